@@ -654,3 +654,24 @@ func init() {
 		return Iface{}
 	})
 }
+
+
+// ---- math on concrete floats (configuration code: primes.IsPrime) ----
+func init() {
+	f1 := func(name string, f func(float64) float64) {
+		reg(name, func(in *Interp, fr *frame, a []Value) Value {
+			x, ok := a[0].(float64)
+			if !ok {
+				unsupported("%s on a non-concrete float", name)
+			}
+			return f(x)
+		})
+	}
+	f1("math.Sqrt", math.Sqrt)
+	f1("math.sqrt", math.Sqrt)
+	f1("math.Ceil", math.Ceil)
+	f1("math.ceil", math.Ceil)
+	f1("math.Floor", math.Floor)
+	f1("math.floor", math.Floor)
+	f1("math.Abs", math.Abs)
+}
